@@ -12,6 +12,7 @@ import NodisVerif.Model.Handler3
 import NodisVerif.Proofs.FloatDecTrip
 import NodisVerif.Proofs.FloatDecInt
 import NodisVerif.Proofs.FloatDecLen
+import NodisVerif.Proofs.FloatDecMono2
 /-
   C04 — sorted sets stay ordered by (score, member); rank, range and score agree.
 
@@ -560,8 +561,47 @@ theorem roundRat_exact_nat (neg : Bool) (n : Nat) (hn0 : 0 < n) (hn : n < 2 ^ 53
 theorem formatShortest_length (x : F64) : (formatShortest x).length ≤ 1000 :=
   Proofs.FloatDecLen.formatShortest_length x
 
-/- NOT PROVED: monotonicity of `roundRat` / `parseDec` (a ≤ b → parse a ≤ parse b); 17-digit sufficiency (above);
-   that `formatShortest` is the *shortest* and *closest* such text (these are what the table compares with Go). -/
+/-- MONOTONICITY of the exact rounding (hence of ParseFloat on non-negative decimal text): num1/den1 ≤ num2/den2
+    (cross-multiplied) ⇒ the rounded doubles are in the same order, as numbers (bit patterns of non-negative doubles,
+    +Inf on top). Proof: Proofs/FloatDecMono.lean — the bit pattern of a rounding as a number, monotone at one exponent,
+    invariant under rescaling, constant inside a cell of the fine grid, then both rationals at a common scale. -/
+theorem roundRat_mono (num1 den1 num2 den2 : Nat) (hd1 : 0 < den1) (hd2 : 0 < den2)
+    (h : num1 * den2 ≤ num2 * den1) :
+    (roundRat false num1 den1).toNat ≤ (roundRat false num2 den2).toNat :=
+  Proofs.FloatDecMono.roundRat_mono num1 den1 num2 den2 hd1 hd2 h
+
+/-- … in the order the sorted sets compare scores with (`F64.le`; the results are never NaN) -/
+theorem roundRat_mono_le (num1 den1 num2 den2 : Nat) (hd1 : 0 < den1) (hd2 : 0 < den2) (h : num1 * den2 ≤ num2 * den1) :
+    F64.le (roundRat false num1 den1) (roundRat false num2 den2) = true :=
+  Proofs.FloatDecMono.roundRat_le num1 den1 num2 den2 hd1 hd2 h
+
+/-- … and in the decimal form `parseDec` uses (mantissa × 10^exponent): mant1·10^e1 ≤ mant2·10^e2 -/
+theorem roundDec_mono (m1 m2 : Nat) (e1 e2 : Int)
+    (h : m1 * 10 ^ e1.toNat * 10 ^ (-e2).toNat ≤ m2 * 10 ^ e2.toNat * 10 ^ (-e1).toNat) :
+    (roundDec false m1 e1).toNat ≤ (roundDec false m2 e2).toNat :=
+  Proofs.FloatDecMono.roundDec_mono m1 m2 e1 e2 h
+
+/-- 0.1 ≤ 1/3 ≤ 0.5 as rationals, so as doubles (the hypotheses are plain inequalities between naturals) -/
+example : (roundRat false 1 10).toNat ≤ (roundRat false 1 3).toNat ∧ (roundDec false 3 (-1)).toNat ≤ (roundDec false 5 (-1)).toNat :=
+  ⟨roundRat_mono 1 10 1 3 (by decide) (by decide) (by decide), roundDec_mono 3 5 (-1) (-1) (by decide)⟩
+
+/-- FAITHFUL ROUNDING (monotonicity + exactness): the rounding of num/den never passes a double. For every finite
+    non-negative double y with exact value my·2^ey: num/den ≤ value(y) ⇒ result ≤ y, and num/den ≥ value(y) ⇒ result ≥ y.
+    Hence the result lies between the two doubles that enclose num/den. -/
+theorem roundRat_faithful (y : F64) (hs : sign y = false) (hfin : expBits y < 2047) (num den : Nat) (hden : 0 < den) :
+    (num * (if (decode y).2 ≥ 0 then 1 else 2 ^ (-(decode y).2).toNat) ≤
+       (if (decode y).2 ≥ 0 then (decode y).1 * 2 ^ (decode y).2.toNat else (decode y).1) * den →
+     (roundRat false num den).toNat ≤ y.toNat) ∧
+    ((if (decode y).2 ≥ 0 then (decode y).1 * 2 ^ (decode y).2.toNat else (decode y).1) * den ≤
+       num * (if (decode y).2 ≥ 0 then 1 else 2 ^ (-(decode y).2).toNat) →
+     y.toNat ≤ (roundRat false num den).toNat) :=
+  ⟨Proofs.FloatDecMono.roundRat_le_of_le y hs hfin num den hden, Proofs.FloatDecMono.roundRat_ge_of_ge y hs hfin num den hden⟩
+
+example : sign (0x3FB999999999999A : F64) = false ∧ expBits (0x3FB999999999999A : F64) < 2047 := by decide
+
+/- NOT PROVED: that the rounding is to the NEAREST double (only faithful + monotone + exact on representable values; the
+   table ties nearest-even to Go on exact halfway texts); monotonicity for negative text (mirror image: the sign only sets the
+   top bit); 17-digit sufficiency (above); that `formatShortest` is the *shortest* and *closest* round-tripping text. -/
 
 end floattext
 
